@@ -561,6 +561,15 @@ def unesc_len(text):
     return len(re.sub(r"\\u\{[0-9a-f]+\}", "X", text))
 
 
+def order_ok(obs, case):
+    """C02 on the implementation alone: the fixed probe of the hostile stream (host functions that write a variable between
+    two reads of it in one expression) shows Yarn's evaluation order"""
+    for o in obs:
+        if o.startswith("ORDER bad"):
+            return o
+    return None
+
+
 def markup_ranges(obs, case):
     """C15 on the implementation's own results: every attribute lies inside the returned text (in characters), lengths and
     positions are non-negative, and asking for the text of an attribute never panicked"""
@@ -605,7 +614,11 @@ PROPERTIES = {
                    rule="listener: the ANTLR parse tree of generated scripts (all statement kinds, nesting, expressions, commands; byte mutations) is handed to the Lean model of parser_listener.go, which must build exactly the tree the code built and agree with the one-clause-per-production translation; run/flow: random 1-4 node programs (nested options, if/elseif/else, set/declare, jumps by name and expression, stop, call, commands) x random in-range choices; non-trivial = at least 3 elements shown incl. an option group; distinct by hash of the case payload",
                    leanchecker=["Ysgo.Props.C01", "Ysgo.Props.C01Listener"]),
     "C02": runprop("expr", ("res", "log"), ("text",), 1500, 60000, nontrivial=lambda obs, case: any("probe(" in o for o in obs),
-                   extra_streams=[{"stream": "exprsyn", "profile": "all", "quick": 6000, "thorough": 150000, "nontrivial": lambda obs, case: not obs[0].startswith(("LOADERR", "LEXERR"))}],
+                   extra_streams=[{"stream": "exprsyn", "profile": "all", "quick": 6000, "thorough": 150000, "nontrivial": lambda obs, case: not obs[0].startswith(("LOADERR", "LEXERR"))},
+                                  # hosts whose functions write variables while an expression is evaluated have no model (Env.call cannot reach the store):
+                                  # the fixed evaluation-order probe of the hostile stream is judged on the implementation alone (a test, not a theorem)
+                                  {"stream": "hostile", "profile": "mix", "quick": 20, "thorough": 200, "predicate": both(no_panic, order_ok), "project": lambda obs, case: [],
+                                   "nontrivial": lambda obs, case: any(o.startswith("ORDER") for o in obs)}],
                    generated_facts=["Generated.EvalFacts (tools/evalfacts, go/ast): operator switch, lazy tests, same-type guard of evaluateBinaryOperation, built-in registry, token-to-operator maps == the model (Props/C02Facts: opSwitch_is_model for all operators and values, lazyTests_are_model, sameTypeGuard_is_model, builtin_registry_is_model, token_maps_are_model)"],
                    rule="run/expr: expression trees of depth <= 5 over literals of the three types, variables, built-ins and logging probe functions, embedded in lines, conditions, assignments and calls; compared: rendered value or error, and the probe log (order and count of evaluations); non-trivial = at least one probe invocation observed",
                    leanchecker=["Ysgo.Props.C02"]),
